@@ -259,9 +259,10 @@ pub fn enc_len(out: &mut Vec<u8>, len: usize, form: LenForm) {
             out.extend_from_slice(&(len as u64).to_be_bytes()[8 - n as usize..]);
         }
         LenForm::Long(n) => {
-            let n = n.max(min_len_octets(len)).min(8);
+            // up to 16 length octets (leading zero octets are legal BER)
+            let n = n.max(min_len_octets(len)).min(16);
             out.push(0x80 | n);
-            out.extend_from_slice(&(len as u64).to_be_bytes()[8 - n as usize..]);
+            out.extend_from_slice(&(len as u128).to_be_bytes()[16 - n as usize..]);
         }
     }
 }
